@@ -11,6 +11,7 @@ A check module (vlib.checks.cXX) exposes
     def replay(case) -> list[violation dict]  (re-run ONE recorded case without the explorer)
 """
 import json, os, sys, time, hashlib, traceback, signal, shutil
+from vlib import env  # noqa: F401  (must precede any strax / numba import)
 import multiprocessing as mp
 
 VERIF = os.path.dirname(os.path.dirname(os.path.abspath(__file__)))
